@@ -244,47 +244,66 @@ def path_conditions(f, path):
 def r22(ctx, R):
     prog = ctx.prog
     f = prog.func(RC + ':RequestWideSearchContext.copy_arr_if_needed')
-    g = cfgmod.cfg_of(f)
-    P = f.params[1]
-    paths = g.enumerate_paths(cfgmod.ENTRY, cfgmod.EXIT, normal_only=True)
+    # decided per path with the returned value propagated: whichever way
+    # the decision is written, and whether the set of shared classes is read
+    # from the search context or handed in by the caller
+    from psa import pathval
+    paths = [p for p in pathval.paths_of(f) if p.end != 'raise']
     R.ob('R2.2', 'copy_arr_if_needed:paths', 1 <= len(paths) <= 16,
          'the copy decision is a small function (path-sensitive '
          'enumeration)', '%d paths' % len(paths), func=f, nontrivial=False)
+
+    def shared_set(e, fn=None, depth=0):
+        """e denotes the request-wide set of classes asked by > 1 group:
+        read from the search context, or a parameter every caller (followed
+        up the call chain) binds to it."""
+        fn = fn or f
+        if src(e).endswith('.multi_group_rcs'):
+            return True
+        if isinstance(e, ast.Name) and e.id in fn.params and depth < 3:
+            sites = [(h_, s_) for h_ in prog.funcs
+                     for s_ in ctx.cg.calls_in(h_) if fn in s_.callees]
+            vals = [(h_, C.arg_for_param(s_.node, fn, e.id))
+                    for h_, s_ in sites]
+            return bool(vals) and all(
+                v is not None and shared_set(v, h_, depth + 1)
+                for h_, v in vals)
+        return False
     n_alias = 0
     for p in paths:
-        ret = p[-2] if len(p) >= 2 else None
+        ret = p.stmts[-1] if p.stmts else None
         if not isinstance(ret, ast.Return) or ret.value is None:
             R.ob('R2.2', 'copy_arr_if_needed:path-returns', False,
                  'every path returns an AllocationRequestResource',
                  'path ends at %s' % type(ret).__name__, func=f)
             continue
-        conds = path_conditions(f, p)
-        v = ret.value
-        if isinstance(v, ast.Name) and v.id == P:
+        v = p.value_at(ret, ret.value)
+        if isinstance(v, ast.Name) and v.id in f.params:
+            P = v.id
             n_alias += 1
-            want = '%s.resource_class in self.multi_group_rcs' % P
-            has = any((not taken) and src(t) == want for t, taken in conds)
-            has = has or any(taken and src(t) in (
-                '%s.resource_class not in self.multi_group_rcs' % P,
-                'not %s' % want) for t, taken in conds)
-            ctext = ' and '.join(('' if tk else 'not ') + src(t)
-                                 for t, tk in conds) or 'always'
-            R.ob('R2.2', 'copy_arr_if_needed:return-alias[%s]' % ctext,
+
+            def not_shared(a, pol, P=P):
+                return (not pol) and isinstance(a, ast.Compare) and \
+                    isinstance(a.ops[0], ast.In) and src(a.left) == \
+                    '%s.resource_class' % P and shared_set(a.comparators[0])
+            has = pathval.holds(p, not_shared)
+            ctext = ' and '.join(('' if tk else 'not ') + '(%s)' % t
+                                 for t, tk in p.cond_srcs()) or 'always'
+            R.ob('R2.2', 'copy_arr_if_needed:return-alias',
                  has,
                  'the shared object is returned only when its resource class '
                  'is not requested by more than one group (otherwise the '
                  'accumulation below corrupts another combination)',
-                 'path condition: %s' % ' and '.join(
-                     ('' if tk else 'not ') + '(%s)' % src(t)
-                     for t, tk in conds) or 'unconditional', func=f,
-                 node=ret)
+                 'path condition: %s' % ctext, func=f, node=ret)
         else:
             okc = isinstance(v, ast.Call) and (
                 prog.dotted(f.module, v.func, f) in ('copy.copy',
                                                      'copy.deepcopy')
                 or src(v.func).endswith('AllocationRequestResource')) and \
-                (not v.args or src(v.args[0]) == P)
-            R.ob('R2.2', 'copy_arr_if_needed:return-copy', okc, 'other paths return a copy of the parameter', src(v),
+                (not v.args or (isinstance(v.args[0], ast.Name) and
+                                v.args[0].id in f.params))
+            R.ob('R2.2', 'copy_arr_if_needed:return-copy', okc,
+                 'other paths return a copy of the parameter', src(v),
                  func=f, node=ret, nontrivial=False)
     R.count('R2.2', max(n_alias, 1), 1)
     # the only in-place mutation of a request-resource amount
@@ -312,11 +331,25 @@ def r22(ctx, R):
          node=sites[0][1] if sites else None)
     if ok:
         h, n, tgt = sites[0]
-        base = tgt.value       # arrs_by_rp_rc[key]
-        okb = isinstance(base, ast.Subscript)
+        base = tgt.value       # arrs_by_rp_rc[key], or a local bound to
+        # arrs_by_rp_rc.get(key) / arrs_by_rp_rc[key]
+        if isinstance(base, ast.Name):
+            bd = c05.single_def(h, base.id)
+            base = bd.value if bd is not None else base
+        keyx = None
+        dx = None
+        if isinstance(base, ast.Subscript):
+            dx, keyx = base.value, base.slice
+        elif isinstance(base, ast.Call) and isinstance(
+                base.func, ast.Attribute) and base.func.attr == 'get' and \
+                base.args and (len(base.args) == 1 or (
+                    isinstance(base.args[1], ast.Constant)
+                    and base.args[1].value is None)):
+            dx, keyx = base.func.value, base.args[0]
+        okb = dx is not None
         stores = []
         if okb:
-            d = src(base.value)
+            d = src(dx)
             stores = [a for a in own_nodes(h.node) if isinstance(a, ast.Assign)
                       and any(isinstance(t, ast.Subscript) and src(
                           t.value) == d for t in a.targets)]
@@ -335,7 +368,7 @@ def r22(ctx, R):
              'for the first occurrence of the (provider, class) key',
              [src(s) for s in stores], func=h, node=n)
         # key = (provider id, resource class)
-        keyd = c05.single_def(h, src(base.slice)) if okb else None
+        keyd = c05.single_def(h, src(keyx)) if okb else None
         okk = keyd is not None and isinstance(
             keyd.value, ast.Tuple) and [src(e).split('.', 1)[1]
                                         for e in keyd.value.elts] == [
